@@ -151,7 +151,16 @@ def r_load(ctx, model):
                 name = fn.format(base="tp", ij=ij)
                 var = name.split("_tp_")[0]
                 n += 1
-                mine = pat.replace("VARNAME", var)
+                # the loader is folded again with this very name (string methods applied to the name act on its characters: rstrip("_tp") eats the p of v_p)
+                cap.pop("pattern", None)
+                try:
+                    ev.call_def(f, model.mods[modname], ref, [var], {})
+                except RaisedV as e:
+                    bad.append(f"{var}: load_data raises {e.exc_name}")
+                    continue
+                mine = cap.get("pattern")
+                if not isinstance(mine, str):
+                    raise AnalysisError(f"load_data: glob pattern is not a constant string for the variable name {var!r}")
                 others = [o["fname_pattern"].format(base=b, ij=i2) for o in rules for b in ("tp", "tv") for i2 in (["11", "46"] if "{ij}" in o["fname_pattern"] else [""])]
                 hits = [o for o in set(others) if fnmatch.fnmatch(o, mine)]
                 if hits != [name]:
